@@ -45,7 +45,8 @@ def config(draw, max_levels=1, max_mws=4, posonly=True, nonunique=True, nonreord
     # where resources live: outermost level, route, inner levels; a name may also be shared with L0
     levels = [{'res': [], 'mws': [], 'prefix': draw(st.sampled_from(['/s', '/s/', '/t/u', '/s', '/v/<p%d>' % k, '/<p%d>/' % k]))}
               for k in range(nlevels)]
-    route = {'res': [], 'mws': [], 'url': url}
+    route = {'res': [], 'mws': [], 'url': url,
+             'url_types': dict((u, [draw(st.sampled_from(['', '', 'int', 'float', 'str'])), draw(st.sampled_from(['', '', '?']))]) for u in url)}
     for n in res_names:
         where = draw(st.sampled_from(['L0', 'L0', 'R', 'inner', 'L0+R', 'L0+inner']))
         if 'L0' in where:
@@ -81,6 +82,19 @@ def config(draw, max_levels=1, max_mws=4, posonly=True, nonunique=True, nonreord
             mw[ph] = []
         cont['mws'].append(mw)
         slots.append((where, cont, mw))
+    shared_mw = None
+    if nonunique and draw(st.floats(0, 1)) < 0.15:
+        # the *same instance* of a non-unique type listed at two places of the stack (no parameters, no provides)
+        shared_mw = {'tid': 4, 'unique': False, 'reorderable': True, 'style': draw(st.sampled_from(['func', 'method'])), 'share': True,
+                     'provides': [], 'endpoint_provides': [], 'render_provides': [],
+                     'request': [] if draw(st.booleans()) else None, 'endpoint': [] if draw(st.booleans()) else None, 'render': None}
+        if shared_mw['request'] is None and shared_mw['endpoint'] is None:
+            shared_mw['request'] = []
+        conts = [levels[0], route] + levels[1:]
+        for _ in range(2):
+            c_ = draw(st.sampled_from(conts))
+            if not any(m.get('share') is None and m['tid'] == 4 for m in c_['mws']):
+                c_['mws'].insert(draw(st.integers(0, len(c_['mws']))), shared_mw)
     # hand provided names to middleware lists (mostly lists whose function exists: O4)
     for n in remaining:
         if not slots:
@@ -120,6 +134,8 @@ def config(draw, max_levels=1, max_mws=4, posonly=True, nonunique=True, nonreord
     for j, mw in enumerate(route['mws']):
         by_id['R.m%d' % j] = (mw, None)
     for mwid, (mw, lvl) in by_id.items():
+        if mw.get('share'):
+            continue
         for ph, pl in I.PHASES:
             if mw[ph] is None:
                 continue
@@ -157,7 +173,7 @@ def config(draw, max_levels=1, max_mws=4, posonly=True, nonunique=True, nonreord
         route['ep_returns'] = 'response'
     if pert:
         phase, name, optional_first = pert
-        funcs = [mw_[phase] for mw_, _ in by_id.values() if mw_.get(phase) is not None]
+        funcs = [mw_[phase] for mw_, _ in by_id.values() if mw_.get(phase) is not None and not mw_.get('share')]
         if phase == 'endpoint':
             funcs.append(route['ep'])
         if phase == 'render' and route['rn'] is not None:
